@@ -1,6 +1,7 @@
 package genlib
 
 import (
+	"sort"
 	"bufio"
 	"bytes"
 	"encoding/json"
@@ -85,6 +86,12 @@ func bodyAttrs(d *spec.Design, m *spec.Method, a *spec.Attr, headers, cookies, p
 // CheckRequestPlacement verifies the request the generated client put on the
 // wire against the design's mapping for the payload value (model form).
 func CheckRequestPlacement(d *spec.Design, s *spec.Service, m *spec.Method, payload any, wire []byte) []string {
+	errs := checkRequestPlacement(d, s, m, payload, wire)
+	sort.Strings(errs) // the mapping tables are Go maps: report in a fixed order
+	return errs
+}
+
+func checkRequestPlacement(d *spec.Design, s *spec.Service, m *spec.Method, payload any, wire []byte) []string {
 	var errs []string
 	req, err := http.ReadRequest(bufio.NewReader(bytes.NewReader(wire)))
 	if err != nil {
@@ -242,6 +249,14 @@ func CheckRequestPlacement(d *spec.Design, s *spec.Service, m *spec.Method, payl
 	ba := bodyAttrs(d, m, m.Payload, m.Headers, m.Cookies, m.Params, pat)
 	var raw bytes.Buffer
 	raw.ReadFrom(req.Body)
+	if m.Payload != nil && pt.Kind != spec.Object {
+		// the payload IS the body
+		var js any
+		if err := json.Unmarshal(raw.Bytes(), &js); err != nil && payload != nil {
+			errs = append(errs, fmt.Sprintf("request body is not JSON: %v (%q)", err, clipS(raw.String())))
+		}
+		return errs
+	}
 	if len(ba) == 0 {
 		if s := strings.TrimSpace(raw.String()); s != "" && s != "null" && s != "{}" {
 			errs = append(errs, fmt.Sprintf("request has a body (%q) although no attribute travels in it", clipS(s)))
@@ -301,6 +316,12 @@ func clipS(s string) string {
 
 // CheckResponsePlacement verifies a success response against the design.
 func CheckResponsePlacement(d *spec.Design, m *spec.Method, resp *spec.Response, result any, hdr http.Header, body []byte) []string {
+	errs := checkResponsePlacement(d, m, resp, result, hdr, body)
+	sort.Strings(errs)
+	return errs
+}
+
+func checkResponsePlacement(d *spec.Design, m *spec.Method, resp *spec.Response, result any, hdr http.Header, body []byte) []string {
 	var errs []string
 	obj, _ := result.(map[string]any)
 	var rt *spec.Type
